@@ -110,7 +110,7 @@ impl Web {
       .snapshot(|s| s.router.take())
       .ok_or("Server::run did not hand over a router")?;
     let rt = tokio::runtime::Builder::new_multi_thread()
-      .worker_threads(1)
+      .worker_threads(2)
       .enable_all()
       .build()
       .map_err(|e| e.to_string())?;
@@ -145,6 +145,21 @@ impl Web {
         body,
       }
     })
+  }
+
+  /// Serve the router on a loopback socket (tier 3: the wallet talks to the
+  /// explorer over HTTP). Returns the port.
+  pub fn serve(&mut self) -> Result<u16, String> {
+    let router = self.router.clone();
+    let listener = self
+      .rt
+      .block_on(async { tokio::net::TcpListener::bind("127.0.0.1:0").await })
+      .map_err(|e| e.to_string())?;
+    let port = listener.local_addr().map_err(|e| e.to_string())?.port();
+    self.rt.spawn(async move {
+      axum::serve(listener, router).await.ok();
+    });
+    Ok(port)
   }
 
   pub fn get_json(&mut self, path: &str) -> Reply {
